@@ -443,7 +443,9 @@ class Engine(ExprMixin, CallMixin, BuiltinMixin, VerifyMixin):
         # list += list is in-place extend
         outs = []
         for st1, v in self.ev(binop, st):
-            outs.extend(Outcome("normal", x) for x in self.assign(s.target, v, st1, None))
+            # list += ... / set |= ... mutate the object in place (aliases see it), numbers and strings rebind
+            inplace = isinstance(v.ty, (List, Set, Map)) and isinstance(s.target, ast.Name)
+            outs.extend(Outcome("normal", x) for x in self.assign(s.target, v, st1, None, inplace=inplace))
         return outs
 
     def st_Delete(self, s, st):
